@@ -173,7 +173,7 @@ pub fn lib_spec(r: &mut Rng, variety: bool, idx: usize) -> ElfSpec {
         rodata_before_text: false,
         data_gap_pages: 0,
         link_base: 0,
-        text_sec_skip: 0, moved_tables: false, force_dyn: false,
+        text_sec_skip: 0, moved_tables: false, force_dyn: false, note_name_last: false,
     };
     if variety {
         match r.below(8) {
@@ -258,7 +258,7 @@ pub fn build_world(r: &mut Rng, cfg: &WorldCfg) -> Built {
         rodata_before_text: false,
         data_gap_pages: 0,
         link_base: 0,
-        text_sec_skip: 0, moved_tables: false, force_dyn: false,
+        text_sec_skip: 0, moved_tables: false, force_dyn: false, note_name_last: false,
     };
     let exe = elfgen::build(&exe_spec);
     if cfg.link_map {
@@ -486,7 +486,7 @@ pub fn build_world(r: &mut Rng, cfg: &WorldCfg) -> Built {
         rodata_before_text: false,
         data_gap_pages: 0,
         link_base: 0,
-        text_sec_skip: 0, moved_tables: false, force_dyn: false,
+        text_sec_skip: 0, moved_tables: false, force_dyn: false, note_name_last: false,
         };
         let img = elfgen::build(&spec);
         regions.push(RegionSpec {
